@@ -84,6 +84,32 @@ PROPS = {
         'Trusted: the accessor added under EVENTPP_VERIF sets the counter consistently (forward only, every existing generation stays <= the counter).',
         'Each evaluation is one seeded program as in C02/C10 on CallbackList with warp(k) operations at top level and inside callback scripts. Non-trivial = the plan contains a warp; distinct = distinct plan hashes.'),
 
+    'C05': seq_prop('seq_queue', [st('c05', 'seq_queue', 'c05', 300000, 6000000)],
+        'seeded queue histories incl. operations issued from listeners and predicates, executed in lockstep with a FIFO queue model (exactly-once, order, argument values, every boolean result)',
+        'Seeded search over single-threaded histories of enqueue (three argument forms, caller lvalues mutated afterwards), process, processOne, processIf, processUntil (mask predicates, predicates without arguments, predicates and listeners carrying scripts), peekEvent, takeEvent (+dispatch), clearEvents, emptyQueue and listener changes. Every listener and predicate call the real code makes is compared, when it happens, with the reference queue model; contents and the front event are compared after every step.',
+        'Trusted: the reference queue model and the ledger. Instantiations: const-reference and by-value prototypes, a move-only payload, SingleThreading / MultipleThreading / SimMutex in one task.',
+        'Each evaluation is one seeded history of 10-40 top-level operations (plus up to 19 operations from scripts) on an EventQueue. Non-trivial = the history contains a processing call; distinct = distinct plan hashes.'),
+    'C13': seq_prop('seq_queue', [st('c13', 'seq_queue', 'c13', 300000, 6000000)],
+        'the C05 histories with QueueList = OrderedQueueList (ascending, descending and payload-field comparators) against a stably sorted queue model',
+        'Same generator and lockstep oracle as C05 with three comparators and keys drawn from three values so that ties are the norm; the model keeps the pending list stably sorted and merges put-back and newly enqueued events with a stable sort.',
+        'Trusted: the ordered reference model (std::stable_sort).',
+        'Each evaluation is one seeded history as in C05 on EventQueue with OrderedQueueList. Non-trivial = contains a processing call; distinct = distinct plan hashes.'),
+    'C10': seq_prop('seq_list', [st('c10-list', 'seq_list', 'c10', 300000, 6000000), st('c10-queue', 'seq_queue', 'c10', 200000, 4000000)],
+        'seeded histories of copy/move/assign/swap over a pool of objects constructed in PRNG-dirtied storage (the injected fault), against a pool of independent models',
+        'Seeded search over histories that interleave copy construction, copy assignment (incl. self), move construction, move assignment, swap (member / ADL / self), destruction and re-creation with the full operation sets of C01/C02/C05 on every pool member, for CallbackList, EventDispatcher and EventQueue; every object is placement-constructed into storage filled with random bytes, 0xFF, 0x00 or the previous occupant\'s bytes. Lists with widely different generation counters come from the C19 accessor.',
+        'Trusted: the models; the moved-from std::map is assumed empty (true for libstdc++). Self-move-assignment is not generated. Heterogeneous classes are covered by the C14 engine\'s pool operations.',
+        'Each evaluation is one seeded history over a pool of up to 4 (lists/dispatchers) or 3 (queues) objects. Non-trivial = the history contains a copy/move/assign/swap; distinct = distinct plan hashes.'),
+    'C08': seq_prop('seq_list', [st('c08-list', 'seq_list', 'c08', 250000, 5000000), st('c08-queue', 'seq_queue', 'c08', 200000, 4000000)],
+        'live-instance ledger enforced as an invariant at every quiescent point of seeded ownership-stress programs (removal during invocation, recycled slots, copy/move/swap chains, clearEvents, destruction with pending events, generation-counter jumps), under ASan; the same ledger is also an invariant of every C03/C06/C07/C11 simulated schedule and of every C09 fault run',
+        'Every construction and destruction of every harness callback, listener and argument object is recorded by address. Immediately flagged: double destruction, copy/move/invoke of a non-live or wrong-type instance. At every quiescent point: a callback that is in no container has no live instance, a stored one has at least one per holder; arguments of cleared events are gone when clearEvents returns; after destroying every container nothing is alive.',
+        'Trusted: the ledger (sim/ledger.h). The number of transient copies std::function makes is never counted, only liveness at quiescence. The documentation lets queue slots keep arguments until reuse; the check asks no more than the statement.',
+        'Each evaluation is one seeded re-entrant program over a pool of lists/dispatchers (stage c08-list) or queues (stage c08-queue) with scripts, pool operations and counter jumps enabled together. Non-trivial = contains an invocation / processing call; distinct = distinct plan hashes.'),
+    'C09': seq_prop('seq_list', [st('c09-list', 'seq_list', 'c09', 12000, 400000, 120, 1200), st('c09-queue', 'seq_queue', 'c09', 8000, 250000, 120, 1200)],
+        'systematic fault injection: for every operation of every seeded history, a throw at the k-th fault point for every k (allocation through a replaced operator new; copy, move, comparison and invocation of user types), singly and with a seeded second fault later in the same execution',
+        'For each seeded plan the harness first runs fault-free and records, per top-level operation i, the number N_i of fault points it passes; it then re-executes the plan once for every (i, k <= N_i) with the k-th point of operation i throwing (std::bad_alloc for allocations, InjectedFault otherwise). Checked: the exception reaches the caller (no terminate, no swallowed fault); strong-guarantee operations leave the complete observable state equal to the model\'s pre-call state; failed container copies leave the source intact and the destination valid; an exception out of an invocation / processing call leaves the lists as the callbacks left them and discards exactly the events that call had taken out; the rest of the plan conforms fault-free; nothing leaks.',
+        'Enumeration is exhaustive per generated history (every k), histories are sampled by seed. Trusted: the replaced operator new covers every allocation of the binary; faults are armed only for the duration of library calls.',
+        'Each evaluation is one seeded plan of 4-12 operations together with ALL its single-fault re-executions (evaluations counts plans; executions_including_fault_reruns counts every execution). Non-trivial = contains an invocation / processing call; distinct = distinct plan hashes.',
+        level='fault_enumeration'),
     'C03': {
         'engine': 'con_list',
         'level': 'exploration',
@@ -141,6 +167,7 @@ PROPS = {
         'level_note': 'Trusted: the simulator; the two reads of emptyQueue() are separate scheduling points (list seam + atomic). processIf/processUntil are outside this property\'s quantifier and are not generated.',
         'stages': [
             {'name': 'c11', 'bin': 'con_queue', 'mode': 'c11', 'runs': {'quick': 200000, 'thorough': 5000000}, 'time': {'quick': 90, 'thorough': 900}},
+            {'name': 'c11-listener-as-observer', 'bin': 'seq_queue', 'mode': 'c11', 'runs': {'quick': 150000, 'thorough': 3000000}, 'time': {'quick': 60, 'thorough': 600}},
         ],
         'rule': 'Each evaluation is one simulated execution of a seeded plan (1-2 enqueuers, 1-2 tasks running process/processOne/takeEvent/clearEvents, 1-2 observers calling emptyQueue / waitFor) '
                 'under one seeded schedule. Non-trivial = a preemption landed inside another task\'s library call; distinct = distinct (task, tag) switch-sequence hashes.',
